@@ -13,7 +13,7 @@ Validation against the real numpy/cv2 on concrete images: selftest/nd_selftest.p
 """
 import builtins, sys, types
 import z3
-from symex.engine import SymInt, SymBool, E, _zi
+from symex.engine import SymInt, SymBool, E, _zi, HarnessError
 
 LOG = []          # events: ('ro->rw', array), ('resize', args) ...
 _cnt = [0]
@@ -66,8 +66,10 @@ class Flags:
 
 
 class NDArray:
-    def __init__(self, buf, shape, writeable=True, dtype='uint8'):
-        self.buf = buf; self.shape = tuple(shape); self.flags = Flags(self, writeable); self.dtype = dtype
+    """layout: 'C' (row major, contiguous) or 'F' (axes 0 and 1 permuted in memory, e.g. img.transpose(1,0,2), np.rot90, gray.T, asfortranarray):
+    the logical content pix(i, j, c) is the same, only memory order differs - which is what order='K'/'A'/'F' flattening exposes."""
+    def __init__(self, buf, shape, writeable=True, dtype='uint8', layout='C'):
+        self.buf = buf; self.shape = tuple(shape); self.flags = Flags(self, writeable); self.dtype = dtype; self.layout = layout
     @property
     def ndim(self): return len(self.shape)
     @property
@@ -75,7 +77,7 @@ class NDArray:
         n = self.shape[0] * self.shape[1]
         return n * 3 if len(self.shape) == 3 else n
     def pix(self, i, j, c=0): return self.buf.fn(i, j, c)
-    def copy(self): return NDArray(Buffer(self.buf.fn), self.shape, True)
+    def copy(self, order='C'): return NDArray(Buffer(self.buf.fn), self.shape, True)
     def write(self, i, j, vals):
         """in-place write of one pixel (all channels)"""
         assert self.flags.writeable, 'write through a read-only array'
@@ -83,9 +85,34 @@ class NDArray:
         def fn(a, b, c, old=old, i=i, j=j, vals=vals):
             return ite((a == i) & (b == j), vals[c], old(a, b, c))
         self.buf.fn = fn
-    def __getitem__(self, k): raise TypeError('ndmodel: indexing not modelled')
-    def tobytes(self): return RawBlob(self.buf.fn, self.shape)
-    def __repr__(self): return f'<nd {self.shape} {"rw" if self.flags.writeable else "ro"} {self.buf.name}>'
+    def _flat(self, order):
+        """flattened bytes: logical C order, or memory order for order in K/A/F on a permuted array"""
+        if order == 'C' or self.layout == 'C': return RawBlob(self.buf.fn, self.shape)
+        h, w = self.shape[0], self.shape[1]; C3 = 3 if len(self.shape) == 3 else 1; src = self.buf.fn
+        if not (isinstance(h, int) and isinstance(w, int)): raise HarnessError('ndmodel: memory-order flattening of a permuted array needs concrete sides')
+        def fn(i, j, c):
+            # element number (i*w + j)*C3 + c of memory; memory is ordered (column, row, channel)
+            flat = (i * w + j) * C3 + c
+            col = flat // (h * C3); rem = flat - col * (h * C3); row = rem // C3; ch = rem - row * C3
+            return src(row, col, ch)
+        return RawBlob(fn, self.shape)
+    def ravel(self, order='C'): return FlatArr(self._flat(order))
+    def flatten(self, order='C'): return FlatArr(self._flat(order))
+    def tobytes(self, order='C'): return self._flat(order)
+    def reshape(self, *shape, order='C'):
+        shape = tuple(shape[0]) if len(shape) == 1 and isinstance(shape[0], (tuple, list)) else tuple(shape)
+        if len(shape) == 1 or shape == (-1,): return FlatArr(self._flat(order))
+        raise HarnessError(f'ndmodel: unmodelled reshape {shape}')
+    def __getattr__(self, name):
+        raise HarnessError(f'ndmodel: unmodelled ndarray API .{name} (the model cannot decide this code path)')
+    def __getitem__(self, k): raise HarnessError('ndmodel: indexing not modelled')
+    def __repr__(self): return f'<nd {self.shape} {"rw" if self.flags.writeable else "ro"} {self.layout} {self.buf.name}>'
+
+
+class FlatArr:
+    """1-D array produced by ravel/flatten: bytearray()/memoryview() of it gives its bytes"""
+    def __init__(self, blob): self.blob = blob
+    def __getattr__(self, name): raise HarnessError(f'ndmodel: unmodelled API on flattened array .{name}')
 
 
 class RawBlob:
@@ -250,6 +277,7 @@ def load_private(relpath, modname, np, cv2, extra_globals=None, package='openfil
 
 
 def model_bytearray(x):
+    if isinstance(x, FlatArr): return x.blob
     if isinstance(x, NDArray):
         return JpgBlob(x.buf.fn, x.shape) if x.dtype == 'jpg' else RawBlob(x.buf.fn, x.shape)
     if isinstance(x, (RawBlob, JpgBlob)): return x
@@ -257,6 +285,7 @@ def model_bytearray(x):
 
 
 def model_memoryview(x):
+    if isinstance(x, FlatArr): return x.blob
     if isinstance(x, (NDArray, RawBlob, JpgBlob)): return x
     return builtins.memoryview(x)
 
